@@ -148,6 +148,8 @@ func ruleNodeLayer(c *Ctx) {
 										newV = identVar(info, as.Lhs[0])
 									}
 								}
+							} else if _, isCall := ast.Unparen(as.Rhs[0]).(*ast.CallExpr); isCall && isFreshExpr(m, as.Rhs[0]) && m.kindByStruct(info.TypeOf(as.Rhs[0])) != nil {
+								newV = identVar(info, as.Lhs[0]) // a helper that hands out a pooled node
 							}
 						}
 					}
@@ -170,16 +172,24 @@ func ruleNodeLayer(c *Ctx) {
 									hasOld = true
 								}
 							}
-							reads := func(e ast.Node, v *types.Var, field string) bool {
+							var readsD func(e ast.Node, v *types.Var, field string, depth int) bool
+							readsD = func(e ast.Node, v *types.Var, field string, depth int) bool {
 								found := false
 								ast.Inspect(e, func(z ast.Node) bool {
 									if se, ok := z.(*ast.SelectorExpr); ok && se.Sel.Name == field && identVar(info, se.X) == v {
 										found = true
 									}
-									return true
+									// a local bound once to an expression that reads the field
+									if id, ok := z.(*ast.Ident); ok && depth < 4 && !found {
+										if d := m.resolveLocal(u, id); d != nil && readsD(d, v, field, depth+1) {
+											found = true
+										}
+									}
+									return !found
 								})
 								return found
 							}
+							reads := func(e ast.Node, v *types.Var, field string) bool { return readsD(e, v, field, 0) }
 							written := false
 							for _, earlier := range list[:i] {
 								ast.Inspect(earlier, func(z ast.Node) bool {
@@ -230,6 +240,69 @@ func ruleNodeLayer(c *Ctx) {
 								}
 							}
 							copied[ls.Sel.Name] = true
+						}
+						// a helper called in this block that copies header fields from one of its
+						// operands to another (dst.inheritHeader(src))
+						for _, earlier := range list[:i] {
+							es, ok := earlier.(*ast.ExprStmt)
+							if !ok {
+								continue
+							}
+							hc, ok := es.X.(*ast.CallExpr)
+							if !ok {
+								continue
+							}
+							cu := m.calleeUnit(hc)
+							if cu == nil || cu.Body == nil {
+								continue
+							}
+							rootArg := func(e ast.Expr) *types.Var {
+								rv, _ := rootVar(info, e)
+								if rv == nil {
+									return nil
+								}
+								var id *ast.Ident
+								ast.Inspect(e, func(z ast.Node) bool {
+									if x, ok := z.(*ast.Ident); ok && id == nil && info.ObjectOf(x) == rv {
+										id = x
+									}
+									return true
+								})
+								if id == nil {
+									return nil
+								}
+								a := argFor(hc, m.paramIndex(cu, id))
+								if a == nil {
+									return nil
+								}
+								if ue, ok := ast.Unparen(a).(*ast.UnaryExpr); ok && ue.Op == token.AND {
+									a = ue.X
+								}
+								av, _ := rootVar(info, a)
+								return av
+							}
+							ast.Inspect(cu.Body, func(z ast.Node) bool {
+								as, ok := z.(*ast.AssignStmt)
+								if !ok || len(as.Lhs) != len(as.Rhs) {
+									return true
+								}
+								for k := range as.Lhs {
+									ls, ok1 := ast.Unparen(as.Lhs[k]).(*ast.SelectorExpr)
+									rs, ok2 := ast.Unparen(as.Rhs[k]).(*ast.SelectorExpr)
+									if ok1 && ok2 && ls.Sel.Name == rs.Sel.Name && rootArg(ls) == newV && rootArg(rs) == xv {
+										copied[ls.Sel.Name] = true
+									}
+									// *dst = *src on the header struct
+									if l, ok := ast.Unparen(as.Lhs[k]).(*ast.StarExpr); ok {
+										if r, ok := ast.Unparen(as.Rhs[k]).(*ast.StarExpr); ok && namedOf(info.TypeOf(l)) != nil && m.Header != nil && namedOf(info.TypeOf(l)).Obj() == m.Header.Obj() && rootArg(l) == newV && rootArg(r) == xv {
+											for _, f := range m.HeaderFld {
+												copied[f] = true
+											}
+										}
+									}
+								}
+								return true
+							})
 						}
 						for _, f := range m.HeaderFld {
 							key := fmt.Sprintf("%s %s→%s copies header field %s", u.Name, xv.Name(), newV.Name(), f)
@@ -402,28 +475,51 @@ func ruleNodeLayer(c *Ctx) {
 		t := &thr{grow: -1, shrink: -1}
 		thrs[k.Value] = t
 		if au := m.ByName[k.Struct.Obj().Name()+".addChild"]; au != nil {
+			// the fill count compared with a constant, in any polarity and operand order: the node
+			// accepts children in place while childrenLen < G
+			stripConv := func(e ast.Expr) ast.Expr {
+				for {
+					e = ast.Unparen(e)
+					if cv, ok := e.(*ast.CallExpr); ok && isConversion(info, cv) && len(cv.Args) == 1 {
+						e = cv.Args[0]
+						continue
+					}
+					return e
+				}
+			}
 			ast.Inspect(au.Body, func(n ast.Node) bool {
-				ifs, ok := n.(*ast.IfStmt)
+				be, ok := n.(*ast.BinaryExpr)
 				if !ok {
 					return true
 				}
-				be, ok := ast.Unparen(ifs.Cond).(*ast.BinaryExpr)
-				if !ok || (be.Op != token.LSS && be.Op != token.LEQ) {
+				op := be.Op
+				x, y := stripConv(be.X), stripConv(be.Y)
+				if _, isSel := y.(*ast.SelectorExpr); isSel {
+					x, y = y, x
+					op = map[token.Token]token.Token{token.LSS: token.GTR, token.GTR: token.LSS, token.LEQ: token.GEQ, token.GEQ: token.LEQ, token.EQL: token.EQL, token.NEQ: token.NEQ}[op]
+				}
+				sel, isSel := x.(*ast.SelectorExpr)
+				tv, has := info.Types[be.Y]
+				if be.Y != y {
+					tv, has = info.Types[be.X]
+				}
+				if !isSel || sel.Sel.Name != "childrenLen" || !has || tv.Value == nil {
 					return true
 				}
-				if sel, ok := ast.Unparen(be.X).(*ast.SelectorExpr); ok && sel.Sel.Name == "childrenLen" {
-					if tv, has := info.Types[be.Y]; has && tv.Value != nil {
-						t.grow, _ = constant.Int64Val(tv.Value)
-						if be.Op == token.LEQ {
-							t.grow++ // childrenLen <= C accepts children while childrenLen < C+1
-						}
-						key := k.Struct.Obj().Name() + ".addChild capacity guard equals len(children)"
-						if t.grow == k.Cap {
-							c.r.ok("R22", key, m.pos(be.Pos()), fmt.Sprintf("childrenLen < %d", t.grow), "C11", "C10")
-						} else {
-							c.r.bad("R22", key, m.pos(be.Pos()), fmt.Sprintf("the node accepts children while childrenLen < %d but its children array has %d slots", t.grow, k.Cap), "C11", "C10")
-						}
-					}
+				cst, _ := constant.Int64Val(tv.Value)
+				switch op {
+				case token.LSS, token.GEQ, token.EQL, token.NEQ:
+					t.grow = cst
+				case token.LEQ, token.GTR:
+					t.grow = cst + 1 // childrenLen <= C accepts children while childrenLen < C+1
+				default:
+					return true
+				}
+				key := k.Struct.Obj().Name() + ".addChild capacity guard equals len(children)"
+				if t.grow == k.Cap {
+					c.r.ok("R22", key, m.pos(be.Pos()), fmt.Sprintf("children are stored in place while childrenLen < %d", t.grow), "C11", "C10")
+				} else {
+					c.r.bad("R22", key, m.pos(be.Pos()), fmt.Sprintf("the node accepts children while childrenLen < %d but its children array has %d slots", t.grow, k.Cap), "C11", "C10")
 				}
 				return true
 			})
